@@ -428,7 +428,7 @@ func runPath(in *interpreter, sol *solver, fn *ssa.Function, prefix []int, hr *h
 			st.reached["end"] = true
 			sample = map[string]string{}
 			for k, inp := range st.inputs {
-				if k < len(vals) && k < 40 {
+				if k < len(vals) && k < 2000 {
 					sample[inp.Name] = vals[k]
 				}
 			}
